@@ -355,7 +355,8 @@ def monitor(case, o):
                 v["C02"].append(({"class": "unanswered"}, "request %d was never answered" % q))
     # needless reload: the pending loop (goroutine Run.go1#k of the instrumented sched.go) zeroes the keep-alive of a live
     # runner r - which it only does to reload r or to make room - although no unanswered request is for another
-    # model, every unanswered request for r's model is compatible with r, and no ping of r failed for this request
+    # model, every unanswered request for r's model is compatible with r, no ping of r failed for this request and r's
+    # load was not abandoned
     answered, subm, ping_failed = set(), [], set()      # ping_failed: since the pending loop took its current request
     for i, s_ in enumerate(o["steps"]):
         for e in s_["ev"]:
@@ -380,7 +381,7 @@ def monitor(case, o):
                 unanswered = [q for q in subm if q not in answered]
                 other = [q for q in unanswered if case["reqs"][q]["m"] != m]
                 incompat = [q for q in unanswered if case["reqs"][q]["m"] == m and not compat_py(key, qkey(case, q))]
-                if not other and not incompat and rid not in ping_failed and unanswered:
+                if not other and not incompat and rid not in ping_failed and unanswered and not (rid in load_failed and load_failed[rid] <= i):
                     v["C11"].append(({"class": "needless-reload"}, "step %d: the pending loop expires runner r%d of model %d to reload it although every waiting request %s "
                                      "is for that model with compatible options and the runner answered its ping" % (i, rid, m, unanswered)))
     # reuse class: every request is compatible with the first runner of its model, no load / ping / newServer
@@ -601,7 +602,7 @@ def detect_variant(ctx, cases, obs):
 def run_group(ctx, pid, ncases=None, only_cases=None):
     ctx.rule = ("cases: corpus of minimal past failures first, then random schedules of submit / cancel / load-ok / load-fail / ping-fail / tick / "
                 "explicit unload and of the scheduler's own goroutines (one synchronisation operation at a time) over <= 3 models and <= 6 requests, "
-                "classes random / expiry-race / reuse / queue; non-trivial = at least one runner was started and one request answered; "
+                "classes random / expiry-race / reuse / queue / join-during-load / twogpu / fit; non-trivial = at least one runner was started and one request answered; "
                 "distinct = by the observed choice sequence")
     ctx.trusted = ["Coq 8.16.1 kernel + vm_compute", "hand-written LTS coq/Sched/Lts.v tied to server/sched.go by the conformance run only",
                    "the instrumenter harness/instr (adds yield points, resolves select nondeterminism, swaps sync.Mutex for a channel-backed mutex)",
@@ -735,11 +736,11 @@ MANIFEST = {
                 "is also monitored directly on the real traces.",
         "design_ref": "DESIGN.md section 5, C01; notes/C01.md",
     },
-    "level_note": "Theorems hold for the repaired scheduler (fix commits 769ee6347, 27da3f16f, 840d0e442; refuted for the code as found, Sched/Refute.v). "
+    "level_note": "Theorems hold for the repaired scheduler (fix commits 769ee6347, 27da3f16f, 840d0e442, 1035ca194 + fixes/C01-abandoned-load-reused.patch; refuted for the code as found, Sched/Refute.v). "
                   "Partial: no termination measure (the quiescent states are characterised, C02_quiescent_complete, but reaching quiescence is only monitored); "
                   "C11 memory fit: the model's placement is an oracle; C11_fit_before_start proves a server is started only after the oracle answered 'fits' or with "
                   "nothing loaded, the oracle's meaning (real PredictServerFit arithmetic) is monitored with an independent fit computation, not proved. "
-                  "C11 on /repo needs fixes/C11-requeued-numctx.patch (a re-queued request keeps its NumCtx scaled by numParallel and reloads a compatible runner). "
+                  "C01/C02 on /repo need fixes/C01-abandoned-load-reused.patch (a runner whose load was abandoned stays reusable until its expired event is processed). "
                   "The model-to-code tie is trace conformance on generated schedules (generator-bounded). See notes/C01.md.",
     "technique": "Coq proof (invariants over the reachable states of an LTS) + trace-conformance check against the steered real scheduler",
 }
